@@ -636,6 +636,7 @@ impl Server {
 #[derive(Clone, Copy, PartialEq, Eq, Debug)]
 pub enum Prop {
     C01,
+    C02,
     C09,
     C10,
     C13,
@@ -1180,6 +1181,20 @@ impl<'a> HistoryRun<'a> {
             }
         }
 
+        // ---- C02 (over histories) ----
+        if self.prop == Prop::C02 {
+            if let Outcome::Reply(rep) = &out {
+                match &pool {
+                    Some(p) if p.contains(&rep.yiaddr) => self.leg.count("addresses_inside_the_clients_set", 1),
+                    Some(p) => {
+                        let d = format!("{} {} to client {} on the interface {}: the configuration in force grants it {:?}", kind, ipj(rep.yiaddr), hex(&ident), server_ip(m.subnet), p.iter().map(|x| ipj(*x)).collect::<Vec<_>>());
+                        self.violate(&format!("address-outside-the-clients-set/{}", kind), d);
+                    }
+                    None => self.violate("answered-without-configured-pool", format!("yiaddr={}", ipj(rep.yiaddr))),
+                }
+            }
+        }
+
         // ---- C09 ----
         if self.prop == Prop::C09 && !must_ignore {
             if let Some(p) = &pool {
@@ -1426,6 +1441,7 @@ impl<'a> HistoryRun<'a> {
 pub fn prop_from(s: &str) -> Option<Prop> {
     Some(match s {
         "C01" => Prop::C01,
+        "C02" => Prop::C02,
         "C09" => Prop::C09,
         "C10" => Prop::C10,
         "C13" => Prop::C13,
@@ -1442,6 +1458,7 @@ fn rule_for(p: Prop) -> &'static str {
         Prop::C10 => "same histories with renewal rhythms; every reply: option 51 present, 300<=L<=86400, recorded expiry-start = L, recorded expiry >= t+L; after EVERY later message each still-running earlier promise (address, client, t+L) must still be backed by its row unless a newer reply for that address superseded it; distinct = step classes plus lease-length buckets reached",
         Prop::C13 => "same histories plus every message type 0..255/absent, server-id absent/own/foreign/wrong length, extra options, interfaces without a pool; full-row snapshot diff around every call and header/option echo comparison; distinct = step classes",
         Prop::C18 => "file-backed histories with restarts (close + reopen) in lock-step with a never-restarted twin: rows identical across reopen, replies identical to the twin's; distinct = step classes",
+        Prop::C02 => "same histories (several subnets and interfaces, reservations, config switches, REQUESTs naming any of the server's own identifiers, relayed messages, restarts of nothing): every address offered or acknowledged must lie in the set the configuration in force grants that client on the interface the message arrived on (a matching reservation, else the range minus every reserved address); distinct = step classes",
         Prop::C20 => "same histories; after every step Pool::get_pool_metrics() compared with counts computed from the rows and the clock; distinct = step classes plus (live, expired) count buckets",
     }
 }
